@@ -477,16 +477,19 @@ def shard(arg):
         res.count('events', len(js))
         dt = rng.choice(DOCTYPE_OPTS)
         dropd = rng.random() < 0.6
+        if G.lean_char_ok(js):
+            # (d) WhitespaceFilter as a function on the forest against the real filter objects of the serializers
+            # (the filter is total: every generated stream, inside the round trip's domain or not; xml = the filter
+            # as the xml serializer configures it: no preserve table, CDATA flag on)
+            for wm in ('html', 'xhtml', 'xml'):
+                ws_lines.append(proto.line(Atom('C08'), Atom('wsforest'), Atom(wm), G.to_wire(js)))
+                ws_meta.append((js, wm))
         for method in ('html', 'xhtml'):
             why = in_domain(js, method, {'doctype': dt})
             if why:
                 res.count('excluded:%s:%s' % (method, why))
                 if why not in ('attr-ws', 'text-cr'):
                     continue
-            if G.lean_char_ok(js):
-                # (d) WhitespaceFilter as a function on the forest against the real filter objects of the serializer
-                ws_lines.append(proto.line(Atom('C08'), Atom('wsforest'), Atom(method), G.to_wire(js)))
-                ws_meta.append((js, method))
             for strip in (False, True):
                 case = {'stream': js, 'method': method, 'strip': strip, 'cache': rng.random() < 0.7,
                         'doctype': dt, 'drop_xml_decl': dropd}
@@ -513,7 +516,7 @@ def shard(arg):
                     meta.append(case)
                     ex_lines.append(expect_line(case))
                     ex_meta.append((case, why))
-                    if profile.startswith('mixed-ns') and not strip and (dt is not None or not dropd):
+                    if profile.startswith('mixed-ns') and (dt is not None or not dropd):
                         # the mixed-namespace tree theorems are stated without a doctype option: one more
                         # comparison of their right-hand side with the parsers, in that configuration
                         case2 = dict(case, doctype=None, drop_xml_decl=True)
@@ -586,6 +589,7 @@ def shard(arg):
             continue
         real = real_wsfilter(js, method)
         res.streams['wsforest'] = res.streams.get('wsforest', 0) + 1
+        res.count('wsforest:method:' + method)
         for ft in ws_features(js):
             res.count('wsforest:' + ft)
         if not (isinstance(v, list) and len(v) == 4 and v[0] == 'ok'):
